@@ -234,7 +234,8 @@ def _specs(tier):
     q = tier == 'quick'
     return st.builds(lambda spec, orders, rev, links: {'k': 'spec', 'spec': spec, 'dict_orders': ['asis'] + orders, 'files': True, 'rev_sheets': rev,
                                                         'links': links},
-                     G.specs(tier, max_books=2 if q else 3, wholecols=False, anchor_rate=3, alias_rate=2, name_rate=4),
+                     G.specs(tier, max_books=2 if q else 3, wholecols=False, anchor_rate=3, alias_rate=2, name_rate=4,
+                             const=G.const_with_formula_like_text()),
                      st.lists(st.sampled_from(ORDERS[1:]), min_size=1, max_size=2 if q else 3, unique=True),
                      st.booleans(), st.one_of(st.none(), st.integers(0, 7)))
 
